@@ -4,8 +4,11 @@ import (
 	"bytes"
 	"encoding/json"
 	"fmt"
+	"github.com/storacha/go-ucanto/client"
 	"github.com/storacha/go-ucanto/core/car"
 	"github.com/storacha/go-ucanto/core/delegation"
+	"github.com/storacha/go-ucanto/core/receipt"
+	"github.com/storacha/go-ucanto/core/result"
 	"github.com/storacha/go-ucanto/ucan"
 	"io"
 	"math/rand"
@@ -527,6 +530,17 @@ func genC11Crafted(cfg Config, emit Emit) {
 	for k := 0; k < 6; k++ {
 		emit("reqcraft", []string{"identity-self", itoa(k), "-"}, "crafted/identity-self", true)
 	}
+	// a union of caveat readers: the first member that accepts wins, whatever was read before
+	emit("reqcraft", []string{"or", "-", "-"}, "crafted/or", true)
+	// a resource reader restricted to one URI scheme, given resources shorter than / other than the scheme
+	for _, w := range []string{"x", "", "h", "https", "https:", "https://a.example/x", "http://a.example/x", "HTTPS://a.example", "did:key:z6Mk", ":", "%", "https://%zz"} {
+		emit("reqcraft", []string{"with", "lib/uri", hexTok([]byte(w))}, "crafted/uri-with", true)
+	}
+	genConv(emit)
+	// a method that reports the validator's typed errors itself: expired / not yet valid / fine invocations
+	for k := 0; k < 6; k++ {
+		emit("reqcraft", []string{"precheck", itoa(k), "-"}, "crafted/precheck", true)
+	}
 	// caveats of every IPLD kind and shape at a capability whose caveats the library's struct reader binds
 	nbs := []TV{tvInt(7), tvStr("x"), tvBytes([]byte{1, 2}), tvBool(true), tvList(nil), tvList([]TV{tvInt(1)}), tvMap(nil),
 		tvMap([]KV{{"size", tvInt(3)}}), tvMap([]KV{{"size", tvStr("3")}}), tvMap([]KV{{"unknown", tvInt(1)}}), tvMap([]KV{{"size", tvInt(3)}, {"zz", tvList([]TV{tvMap(nil)})}}),
@@ -565,6 +579,116 @@ func execReqCraft(a []string) (res Result) {
 			return Result{Impl: "skip:" + err.Error(), Oracle: "ok"}
 		}
 		body, _ = io.ReadAll(car.Encode([]ipld.Link{msg.Root().Link()}, msg.Blocks()))
+	case "or":
+		// two requests to one server: first caveats only the lenient member accepts (a list), then proper
+		// ones; the handler must be handed the proper ones as the strict member reads them
+		log := &runLog{}
+		var calls []handlerCall
+		var mu sync.Mutex
+		srv, err := cw.buildServer(log, &calls, &mu, nil)
+		if err != nil {
+			return Result{Impl: "server-error"}
+		}
+		send := func(nb ucan.CaveatBuilder) {
+			inv, err := invocation.Invoke(alice, svc, ucan.NewCapability("lib/or", alice.DID().String(), nb), delegation.WithNoExpiration())
+			if err != nil {
+				return
+			}
+			if conn, err := client.NewConnection(svc.DID(), srv); err == nil {
+				client.Execute([]invocation.Invocation{inv}, conn)
+			}
+		}
+		send(tvBuilder{tvList([]TV{tvInt(1)})})
+		send(NbMap{F: map[string]any{"f1": int64(42)}})
+		mu.Lock()
+		defer mu.Unlock()
+		var got []string
+		for _, c := range calls {
+			got = append(got, callStr(c))
+		}
+		impl := strings.Join(got, ";")
+		oracle := "ok"
+		if len(calls) != 2 || len(calls[0].Nb) != 1 || calls[0].Nb[0] != [2]int{9, 9} || len(calls[1].Nb) != 1 || calls[1].Nb[0] != [2]int{1, 42} {
+			oracle = "fail:a union of caveat readers handed the handler " + impl + " (expected the lenient reading {f9:9} for the list, then the strict reading {f1:42})"
+		}
+		return Result{Impl: "status:200|or", Oracle: oracle, Extra: map[string]any{"calls": impl}}
+	case "precheck":
+		k := atoi(a[1])
+		mk := func(o ...delegation.Option) invocation.Invocation {
+			inv, _ := invocation.Invoke(alice, svc, ucan.NewCapability("lib/precheck", alice.DID().String(), NbMap{F: map[string]any{}}), o...)
+			return inv
+		}
+		now := int(ucan.Now())
+		all := []invocation.Invocation{mk(delegation.WithNoExpiration()), mk(delegation.WithExpiration(now - 60)), mk(delegation.WithNoExpiration(), delegation.WithNotBefore(now+600)), mk(delegation.WithExpiration(now + 600))}
+		var invs []invocation.Invocation
+		for i, inv := range all {
+			if inv != nil && (k == 0 || (k+i)%2 == 0 || i == k-1) {
+				invs = append(invs, inv)
+			}
+		}
+		msg, err := message.Build(invs, nil)
+		if err != nil {
+			return Result{Impl: "skip:" + err.Error(), Oracle: "ok"}
+		}
+		body, _ = io.ReadAll(car.Encode([]ipld.Link{msg.Root().Link()}, msg.Blocks()))
+	case "conv":
+		// lib/conv invoked by its owner, or by bob under alice's delegation (with or without the caveat in
+		// the delegation): a complete, valid chain, so the receipt must be the handler's ok
+		k := atoi(a[1])
+		mallory := edPool[7].DID().String()
+		nbOf := func(on bool) NbMap {
+			if on {
+				return NbMap{F: map[string]any{"consumer": mallory}}
+			}
+			return NbMap{F: map[string]any{}}
+		}
+		var inv invocation.Invocation
+		var err error
+		if k == 0 {
+			inv, err = invocation.Invoke(alice, svc, ucan.NewCapability("lib/conv", alice.DID().String(), nbOf(true)), delegation.WithNoExpiration())
+		} else {
+			bob := edPool[5]
+			var prf delegation.Delegation
+			prf, err = delegation.Delegate(alice, bob, []ucan.Capability[NbMap]{ucan.NewCapability("lib/conv", alice.DID().String(), nbOf(k == 2))}, delegation.WithNoExpiration())
+			if err == nil {
+				inv, err = invocation.Invoke(bob, svc, ucan.NewCapability("lib/conv", alice.DID().String(), nbOf(k != 3)), delegation.WithNoExpiration(), delegation.WithProof(delegation.FromDelegation(prf)))
+			}
+		}
+		if err != nil {
+			return Result{Impl: "skip:" + err.Error(), Oracle: "ok"}
+		}
+		log := &runLog{}
+		var calls []handlerCall
+		var mu sync.Mutex
+		srv, err := cw.buildServer(log, &calls, &mu, nil)
+		if err != nil {
+			return Result{Impl: "server-error"}
+		}
+		conn, err := client.NewConnection(svc.DID(), srv)
+		if err != nil {
+			return Result{Impl: "skip:" + err.Error(), Oracle: "ok"}
+		}
+		resp, err := client.Execute([]invocation.Invocation{inv}, conn)
+		if err != nil {
+			return Result{Impl: "status:200|conv", Oracle: "fail:a valid invocation of a capability with converter-bound caveats is not answered: " + err.Error()}
+		}
+		st := "missing"
+		if rl, ok := resp.Get(inv.Link()); ok {
+			rdr, _ := receipt.NewReceiptReader[ipld.Node, ipld.Node](anyResultSchema)
+			if rc, err := rdr.Read(rl, resp.Blocks()); err == nil {
+				o, x := result.Unwrap(rc.Out())
+				if o != nil {
+					st = "ok"
+				} else {
+					st = "error:" + failureName(x)
+				}
+			}
+		}
+		oracle := "ok"
+		if st != "ok" {
+			oracle = "fail:a complete valid chain for a capability whose caveats bind a DID through a converter option is answered with " + st
+		}
+		return Result{Impl: "status:200|conv", Oracle: oracle, Extra: map[string]any{"receipt": st}}
 	case "nb":
 		var tv TV
 		json.Unmarshal([]byte(a[2]), &tv)
@@ -615,4 +739,10 @@ func execReqCraft(a []string) (res Result) {
 	}
 	impl, oracle := reqOutcome(cw, body, carHdr)
 	return Result{Impl: impl, Oracle: oracle}
+}
+
+func genConv(emit Emit) {
+	for k := 0; k < 4; k++ {
+		emit("reqcraft", []string{"conv", itoa(k), "-"}, "crafted/conv", true)
+	}
 }
